@@ -306,7 +306,7 @@ def queryNodes (s : State) (status : Int) (req : PageRequest) :=
 /-- x/node/keeper/query_server.go:98-114 (`key[1:]` is the address behind its length byte). -/
 def queryNodesForPlan (s : State) (id : Nat) (status : Int) (req : PageRequest) :=
   filteredPaginate (nodesForPlanStore s id) req
-    (Callback.gated
+    (Callback.filter
       (fun k _ => match getNode s (k.drop 1) with | some n => statusMatches status n.status | none => false)
       (fun k _ => getNode s (k.drop 1)))
 
@@ -316,7 +316,7 @@ def queryPlans (s : State) (status : Int) (req : PageRequest) :=
 /-- x/plan/keeper/query_server.go:98-114. -/
 def queryPlansForProvider (s : State) (a : Addr) (status : Int) (req : PageRequest) :=
   filteredPaginate (plansForProviderStore s a) req
-    (Callback.gated
+    (Callback.filter
       (fun k v => match byIndexId (getPlan s) k v with | some p => statusMatches status p.status | none => false)
       (byIndexId (getPlan s)))
 
